@@ -366,6 +366,74 @@ theorem C11open_bls24_315_completeness
   rw [C11gen_bls24_315_verify, resOfBool_ok]
   exact hver
 
+/-- generated `BatchOpenSinglePoint` = `Model.KZG.batchOpenSinglePoint` for every non-empty list of polynomials with reduced coefficients and a
+reduced challenge: both error cases (number of digests, size of any polynomial), the claimed values, and `H` = the commitment of the quotient of
+the γ-folded polynomial (the point at infinity when every polynomial is constant). `deriveGamma` returns the challenge γ without error
+(hypothesis `hdg`; it is an uninterpreted parameter, its error is handed on: `C11open_bls24_315_batch_ref`). For `polys = []` the Go code panics
+(index out of range in a goroutine; `make` of negative length): not modelled. -/
+theorem C11open_bls24_315_batch_model
+    (hm : ∀ recv pts sc cfg, pts.length = sc.length → multiExp recv pts sc cfg = (msm r pts sc, GoImp.Err.nil))
+    (deriveGamma : ℕ → List ℕ → List ℕ → Hash → List (List UInt8) → ℕ × GoImp.Err) (γ : ℕ)
+    (polys : List (List ℕ)) (digests pk : List ℕ) (z : ℕ) (hf : Hash) (dt : List (List UInt8))
+    (hdg : ∀ vals, deriveGamma z digests vals hf dt = (γ, GoImp.Err.nil))
+    (hne : polys ≠ []) (hp : ∀ p ∈ polys, ∀ c ∈ p, c < r) (hγ : γ < r) :
+    KzgOpen_bls24_315.BatchOpenSinglePoint 0 (addm r) (subm r) (mulm r) 0 multiExp deriveGamma polys digests z hf ⟨pk⟩ dt =
+      match batchOpenSinglePoint r γ polys digests.length z pk with
+      | .ok (H, vals) => (⟨H, vals⟩, GoImp.Err.nil)
+      | .error .nbDigests => (⟨0, []⟩, KzgOpen_bls24_315.ErrInvalidNbDigests)
+      | .error _ => (⟨0, []⟩, KzgOpen_bls24_315.ErrInvalidPolynomialSize) := by
+  rw [C11open_bls24_315_batch_ref]
+  unfold batchOpenSinglePoint
+  have hpk : len (KzgOpen_bls24_315.ProvingKey.mk (F := ℕ) (G := ℕ) pk).G1 = ((pk.length : ℕ) : Int) := rfl
+  by_cases h1 : digests.length ≠ polys.length
+  · have h1' : len digests ≠ len polys := by simp only [len_eq]; omega
+    simp only [if_pos h1', if_pos h1]
+  · have h1' : ¬ (len digests ≠ len polys) := by simp only [len_eq]; omega
+    simp only [if_neg h1', if_neg h1, hpk]
+    have hbad := rSizes_bad_iff (pk.length) polys (-1)
+    by_cases h2 : (rSizes ((pk.length : ℕ) : Int) polys (-1)).2 = true
+    · have hany : (polys.any fun p => decide (p.length = 0 ∨ p.length > pk.length)) = true := by
+        simpa [List.any_eq_true] using hbad.1 h2
+      simp only [if_pos h2, hany, if_true]
+    · have hany : ¬ ((polys.any fun p => decide (p.length = 0 ∨ p.length > pk.length)) = true) := by
+        intro ha; apply h2; apply hbad.2; simpa [List.any_eq_true] using ha
+      have h2f : (rSizes ((pk.length : ℕ) : Int) polys (-1)).2 = false := by simpa using h2
+      have hl0 : ¬ (polys.length = 0) := by simpa using hne
+      have hev : (fun p => KzgOpen_bls24_315.eval 0 (addm r) (subm r) (mulm r) 0 multiExp p z) = fun p => gEval (addm r) (mulm r) 0 p z := by
+        funext p; exact C11open_bls24_315_eval_ref 0 (addm r) (subm r) (mulm r) 0 multiExp p z
+      simp only [if_neg h2, if_neg hany, if_neg hl0, hev, rVals_model r polys z hp, hdg, ne_eq, not_true_eq_false, if_false]
+      obtain ⟨p0, rest, rfl⟩ := List.exists_cons_of_ne_nil hne
+      have hq := rQuotArr_model r p0 rest γ z pk.length hp hγ h2f
+      have hql := congrArg List.length hq
+      rw [List.length_drop, rQuotArr_length] at hql
+      have hle := rSizes_le ((pk.length : ℕ) : Int) (p0 :: rest) (-1) (by omega) h2f
+      rw [hq]
+      generalize KZG.dividePolyByXminusA r
+          (foldPolys r ((p0 :: rest).foldl (fun m p => max m p.length) 0) (p0 :: rest) (powers r γ (γ % r) (p0 :: rest).length))
+          (foldEvals r γ ((p0 :: rest).map (fun p => KZG.eval r p z))) z = q at hql ⊢
+      have hqk : q.length ≤ pk.length := by omega
+      unfold commitQuotient commit
+      by_cases hz : q.length = 0
+      · have hz' : ¬ (len q > 0) := by simp only [len_eq]; omega
+        simp only [if_neg hz', if_pos hz]
+      · have hz' : len q > 0 := by simp only [len_eq]; omega
+        have hc : ¬ (q.length = 0 ∨ q.length > pk.length) := by omega
+        simp only [if_pos hz', if_neg hz, if_neg hc, C11open_bls24_315_commit_abstract 0 (addm r) (subm r) (mulm r) 0 multiExp (msm r) hm]
+        simp
+
+example : ∃ (multiExp : ℕ → List ℕ → List ℕ → KzgOpen_bls24_315.MultiExpConfig → ℕ × GoImp.Err)
+    (deriveGamma : ℕ → List ℕ → List ℕ → Hash → List (List UInt8) → ℕ × GoImp.Err),
+    (∀ recv pts sc cfg, pts.length = sc.length → multiExp recv pts sc cfg = (msm 13 pts sc, GoImp.Err.nil)) ∧
+    (∀ vals, deriveGamma 2 [0, 0] vals {} [] = (3, GoImp.Err.nil)) ∧
+    ([[1, 2, 3], [4, 5]] ≠ ([] : List (List ℕ)) ∧ (∀ p ∈ [[1, 2, 3], [4, 5]], ∀ c ∈ p, c < 13) ∧ 3 < 13) :=
+  ⟨mexp 13 GoImp.Err.nil (GoImp.Err.sentinel "MultiExp"), fun _ _ _ _ _ => (3, GoImp.Err.nil), fun _ _ _ _ h => by simp [mexp, h],
+    fun _ => rfl, by decide⟩
+example : let o := (KzgOpen_bls24_315.BatchOpenSinglePoint 0 (addm 13) (subm 13) (mulm 13) 0 (mexp 13 GoImp.Err.nil (GoImp.Err.sentinel "MultiExp"))
+      (fun _ _ _ _ _ => (3, GoImp.Err.nil)) [[1, 2, 3], [4, 5]] [0, 0] 2 {} ⟨powers 13 5 1 4⟩ [])
+    o.1.ClaimedValues = [4, 1] ∧ o.2 = GoImp.Err.nil := by decide
+example : (KzgOpen_bls24_315.BatchOpenSinglePoint 0 (addm 13) (subm 13) (mulm 13) 0 (mexp 13 GoImp.Err.nil (GoImp.Err.sentinel "MultiExp"))
+      (fun _ _ _ _ _ => (3, GoImp.Err.nil)) [[1, 2, 3]] [0, 0] 2 {} ⟨powers 13 5 1 4⟩ []).2 = KzgOpen_bls24_315.ErrInvalidNbDigests := by decide
+
 example : ∃ (multiExp : ℕ → List ℕ → List ℕ → KzgOpen_bls24_315.MultiExpConfig → ℕ × GoImp.Err),
     (∀ recv pts sc cfg, pts.length = sc.length → multiExp recv pts sc cfg = (msm 13 pts sc, GoImp.Err.nil)) ∧
     (2 ≤ 4 ∧ [1, 2, 3] ≠ ([] : List ℕ) ∧ [1, 2, 3].length ≤ 4 ∧ ∀ c ∈ [1, 2, 3], c < 13) :=
